@@ -1243,13 +1243,25 @@ double NowWall() {
 
 // ------------------------------------------------------------------------------------------- explore mode
 struct ExploreStats {
-  std::uint64_t runs = 0, failures = 0, nontrivial = 0, skipped_known = 0, leak_unconfirmed = 0;
+  std::uint64_t runs = 0, failures = 0, nontrivial = 0, skipped_known = 0, leak_unconfirmed = 0, other_class_failures = 0;
   std::uint64_t steps = 0, switches = 0, sim_ns = 0, choices = 0, max_fibers = 0;
   std::uint64_t f_preempt = 0, f_forced = 0, f_cas = 0, f_spur = 0, f_jitter = 0, f_pick = 0;
   std::uint64_t tracked_copies = 0, tracked_moves = 0;
   std::uint64_t strat_inj[9] = {};
 };
 ExploreStats gStats;
+std::vector<std::string> gOnly;
+bool ClassWanted(const char* cls) {
+  if (gOnly.empty()) {
+    return true;
+  }
+  for (auto& p : gOnly) {
+    if (std::strncmp(cls, p.c_str(), p.size()) == 0) {
+      return true;
+    }
+  }
+  return false;
+}
 std::vector<std::uint64_t> gHashes;  // (descriptor hash ^ interleaving hash) of non-trivial runs
 bool gHashesSaturated = false;
 std::map<std::string, std::vector<std::uint64_t>> gKnownCases;
@@ -1266,6 +1278,7 @@ void PrintStats(const char* tag, double wall) {
   j.KV("nontrivial", static_cast<unsigned long long>(gStats.nontrivial));
   j.KV("skipped_known", static_cast<unsigned long long>(gStats.skipped_known));
   j.KV("leak_unconfirmed", static_cast<unsigned long long>(gStats.leak_unconfirmed));
+  j.KV("other_class_failures", static_cast<unsigned long long>(gStats.other_class_failures));
   j.KV("steps", static_cast<unsigned long long>(gStats.steps));
   j.KV("switches", static_cast<unsigned long long>(gStats.switches));
   j.KV("sim_ns", static_cast<unsigned long long>(gStats.sim_ns));
@@ -1360,7 +1373,11 @@ void DumpHashes() {
 
 void ExploreOnAbort() {
   // called from inside a dying run (DEADLOCK / NO_PROGRESS): report it and the statistics so far
-  PrintCandidate(gCurIndex);
+  if (ClassWanted(gRec->cls)) {
+    PrintCandidate(gCurIndex);
+  } else {
+    ++gStats.other_class_failures;
+  }
   ++gCurIndex;
   PrintStats("STATS", NowWall() - gExploreStart);
   DumpHashes();
@@ -1376,6 +1393,24 @@ int Explore(const Args& a) {
   const std::uint64_t max_cands = a.U64("max-cands", 3);
   const std::uint64_t want_samples = a.U64("samples", 3);
   const bool print_hashes = a.Get("print-hashes") != nullptr;
+  // --only A,B,...: only violation classes starting with one of these prefixes are reported by this run (the same
+  // scenarios serve several properties; the other classes belong to another property's check)
+  std::vector<std::string> only;
+  if (const char* o = a.Get("only")) {
+    std::string str = o;
+    std::size_t p0 = 0;
+    while (p0 <= str.size()) {
+      auto q = str.find(',', p0);
+      if (q == std::string::npos) {
+        q = str.size();
+      }
+      if (q > p0) {
+        only.push_back(str.substr(p0, q - p0));
+      }
+      p0 = q + 1;
+    }
+  }
+  gOnly = only;
   gHashFile = a.Get("hashes");
   if (const char* known = a.Get("known")) {
     std::string s = known;
@@ -1509,6 +1544,10 @@ int Explore(const Args& a) {
       j.KV("result", failed ? r.cls : "ok");
       j.End();
       gSamples.push_back(j.s);
+    }
+    if (failed && !ClassWanted(r.cls)) {
+      ++gStats.other_class_failures;
+      failed = false;
     }
     if (failed) {
       ++gStats.failures;
